@@ -287,6 +287,21 @@ Theorem C31_per_target_lock_not_enough :
 Proof. exact (conj Proof.C31_TempFile.fixed_name_races Proof.C31_TempFile.fixed_name_same_target). Qed.
 Print Assumptions C31_per_target_lock_not_enough.
 
+(* the other half of that contrast as a theorem: when all processes work on ONE target the flock alone makes
+   the copy safe, whatever the temporary file is called - even with the fixed name, for every number of
+   processes, every size and every schedule no process fails, the destination is never partial and is whole
+   once a process has finished.  The unique names are needed exactly for what different targets share. *)
+Theorem C31_one_target_any_temp_name :
+  forall (sz n : nat) (tg : nat -> nat) (sched : list nat),
+    (forall a b, tg a = tg b) ->
+    let st := C31_TempFile.trun C31_TempFile.TFixed sz n tg sched C31_TempFile.tinit in
+    (forall i, C31_TempFile.t_pc st i <> C31_TempFile.PFailed)
+    /\ (forall x, C31_TempFile.t_dir st C31_TempFile.ETo = Some x -> C31_TempFile.t_data st x = Some sz)
+    /\ (forall i, C31_TempFile.t_pc st i = C31_TempFile.PDone ->
+          exists x, C31_TempFile.t_dir st C31_TempFile.ETo = Some x /\ C31_TempFile.t_data st x = Some sz).
+Proof. exact Proof.C31_TempFile.fixed_one_target_safe. Qed.
+Print Assumptions C31_one_target_any_temp_name.
+
 (* non-vacuity: under the policy of the source two processes on different targets DO write at the same time
    (both part-way through), both finish, the second rename replaces the first one's result by an equal one, no
    temporary name is left; what the correspondence check evaluates (shared_check) rejects an observed
